@@ -37,6 +37,10 @@ OBLIGATIONS = [
     "Grog.C09.serOutput_injective",
     "Grog.C09.outHash_outputs_inj",
     "Grog.C09.outHash_order_independent",
+    "Grog.C09.nocache_outHash_inj",
+    "Grog.C09.nocache_outHash_order_independent",
+    "Grog.C09.nocache_old_swap_witness",
+    "Grog.C09.hashContent_inj",
 ]
 ASSUMPTIONS = [
     "hash function injective on the streams that occur (explicit hypothesis of key_eq_iff; example instantiates it)",
@@ -349,6 +353,7 @@ def run(ctx):
     for fam, s1, s2 in pairs[:3]:
         ctx.sample({"family": fam, "state1": s1, "state2": s2})
     outhash_section(ctx, env)
+    digest_section(ctx, env)
     cli_section(ctx)
     # ---- 3. correspondence verdict ------------------------------------------------------------------
     ctx.coverage["disagreements"] = len(disagreements)
@@ -449,6 +454,124 @@ def outhash_section(ctx, env):
         ctx.violation("real output hash / protobuf marshalling differs from the model", {"kind": "correspondence",
                       "correspondence": "output.getOutputHash + proto.Marshal vs GrogModel.Proto.serOutput / Hash.outHash", "request": r, "impl": x, "model": y,
                       "n_disagreements": len(dis)}, found_input=False)
+
+
+def digest_section(ctx, env):
+    """the digests that enter keys through dependencies: HashFile / HashBytes / HashString are the configured hash of the whole content
+    (model: hashContent), also for files far beyond any buffer or chunk size (oracle: digests equal iff contents equal, on files made of
+    permuted / dropped / repeated blocks), and GetNoCacheOutputHash (model: outHashNoCache; oracle: equal iff the same set of
+    (output definition, content), wherever the workspace is)."""
+    rng = ctx.rng
+    quick = ctx.tier == "quick"
+    tied = ("sha256", "xxh3") if ctx.coverage.get("xxh3_vector_disagreements", 0) == 0 else ("sha256",)
+    # (a) literal contents
+    lens = [0, 1, 3, 8, 16, 17, 128, 129, 240, 241, 1023, 1024, 1025, 4096, 5000, 32768, 32769, 70001]
+    reqs = [{"op": "hash.file", "algo": algo, "s": "".join(chr(rng.randrange(256)) for _ in range(n))} for n in lens for algo in ("sha256", "xxh3")]
+    impl = ctx.impl(reqs, env=env)
+    if impl is None:
+        return
+    tr = [(r, x) for r, x in zip(reqs, impl) if r["algo"] in tied]
+    mod = ctx.model([r for r, _ in tr])
+    dis = [(r, x, y) for (r, x), y in zip(tr, mod) if x != y]
+    # (b) large files made of blocks
+    bss = [4 << 20, 1 << 20] if quick else [4 << 20, 1 << 20, 64 << 10, 8 << 20]
+    pairs = []
+    for bs in bss:
+        nb = max(3, (9 << 20) // bs) if bs >= (1 << 20) else 40
+        ids = list(range(nb))
+        perm = ids[:]; perm[0], perm[-1] = perm[-1], perm[0]
+        mid = ids[:]; mid[1], mid[2] = mid[2], mid[1]
+        pairs += [(bs, ids, perm, 0, 0), (bs, ids, mid, 0, 0), (bs, ids, ids[:-1], 0, 0), (bs, ids, ids + [ids[0]], 0, 0), (bs, ids, ids, 0, 0),
+                  (bs, ids, ids, 7, 8), (bs, ids, perm, 5, 5), (bs, ids[:-1] + [99], ids, 0, 0)]
+    breqs = []
+    for bs, a_, b_, ta, tb in pairs:
+        for algo in ("xxh3", "sha256"):
+            breqs.append({"op": "hash.file", "algo": algo, "blocks": a_, "bs": bs, "tail": ta})
+            breqs.append({"op": "hash.file", "algo": algo, "blocks": b_, "bs": bs, "tail": tb})
+    bout = ctx.impl(breqs, env=env)
+    if bout is None:
+        return
+    for i, (bs, a_, b_, ta, tb) in enumerate(pairs):
+        same = (a_, ta) == (b_, tb)
+        for k, algo in enumerate(("xxh3", "sha256")):
+            x, y = bout[4 * i + 2 * k], bout[4 * i + 2 * k + 1]
+            if "file" not in x or "file" not in y:
+                continue
+            if same != (x["file"] == y["file"]):
+                ctx.violation("two files with different contents receive the same digest (or the same content two digests): the digest of a large file "
+                              "is not a function of exactly its bytes in order",
+                              {"kind": "oracle", "oracle": "HashFile equal iff content equal (files made of %d-byte blocks)" % bs, "algo": algo,
+                               "request1": breqs[4 * i + 2 * k], "request2": breqs[4 * i + 2 * k + 1], "digest1": x["file"], "digest2": y["file"]},
+                              signature="file-digest-not-content-injective")
+    # (c) no-cache output hash
+    names = ["o", "o2", "a", "b", "sub/o", "a,b", "x:y", "10", "o o"]
+    conts = ["", "a", "b", "ab", "x,y", "0", "hello\n"]
+    npairs = 120 if quick else 1500
+    nreqs, meta = [], []
+    for _ in range(npairs):
+        outs = [[n_, rng.choice(conts)] for n_ in rng.sample(names, rng.randint(0, 3))]
+        dirs = [["d%d" % k, [[rng.choice(["f", "s/g"]), rng.choice(conts)] for _ in range(rng.randint(0, 2))]] for k in range(rng.choice([0, 0, 1]))]
+        for d_ in dirs:
+            d_[1] = [list(t) for t in dict((f[0], f[1]) for f in d_[1]).items()]
+        outs2, dirs2 = copy.deepcopy(outs), copy.deepcopy(dirs)
+        kind = rng.choice(["perm", "swap", "content", "rename", "same", "drop", "dirfile"])
+        if kind == "perm":
+            rng.shuffle(outs2)
+        elif kind == "swap" and len(outs2) >= 2:
+            outs2[0][1], outs2[1][1] = outs2[1][1], outs2[0][1]
+        elif kind == "content" and outs2:
+            outs2[0][1] = rng.choice(conts)
+        elif kind == "rename" and outs2:
+            free = [n_ for n_ in names if n_ not in [o[0] for o in outs2]]
+            outs2[0][0] = rng.choice(free)
+        elif kind == "drop" and outs2:
+            outs2.pop()
+        elif kind == "dirfile" and dirs2 and dirs2[0][1]:
+            dirs2[0][1][0][1] = rng.choice(conts)
+        pkg = rng.choice(["", "p", "p/q"])
+        for algo in ("xxh3", "sha256"):
+            nreqs.append({"op": "hash.nocache", "algo": algo, "rootname": "here", "pkg": pkg, "name": "t", "outputs": outs, "dirs": dirs})
+            nreqs.append({"op": "hash.nocache", "algo": algo, "rootname": "else/where/deeper", "pkg": pkg, "name": "t", "outputs": outs2, "dirs": dirs2})
+        meta.append((kind, outs, dirs, outs2, dirs2))
+    nout = ctx.impl(nreqs, env=env)
+    if nout is None:
+        return
+    ntr = [(r, x) for r, x in zip(nreqs, nout) if r["algo"] in tied and not r["dirs"]]
+    nmod = ctx.model([r for r, _ in ntr])
+    dis += [(r, x, y) for (r, x), y in zip(ntr, nmod) if x != y]
+    canon = lambda outs, dirs: (sorted(map(tuple, outs)), sorted((d[0], tuple(sorted(map(tuple, d[1])))) for d in dirs))
+    ndiff = 0
+    for i, (kind, outs, dirs, outs2, dirs2) in enumerate(meta):
+        same = canon(outs, dirs) == canon(outs2, dirs2)
+        ndiff += 0 if same else 1
+        for k, algo in enumerate(("xxh3", "sha256")):
+            x, y = nout[4 * i + 2 * k], nout[4 * i + 2 * k + 1]
+            if "hash" not in x or "hash" not in y:
+                continue
+            if same and x["hash"] != y["hash"]:
+                ctx.violation("the output hash of a no-cache target differs between two workspaces with the same outputs (it depends on the workspace "
+                              "location or on the order of the outputs); it is the dependency digest in the keys of all dependants",
+                              {"kind": "oracle", "oracle": "no-cache output hash is a function of the set of (output definition, content)", "algo": algo,
+                               "request1": nreqs[4 * i + 2 * k], "request2": nreqs[4 * i + 2 * k + 1], "hash1": x["hash"], "hash2": y["hash"]},
+                              signature="nocache-outhash-equal-state-different-hash")
+            if not same and x["hash"] == y["hash"]:
+                ctx.violation("two no-cache targets with different outputs have the same output hash",
+                              {"kind": "oracle", "oracle": "no-cache output hash injective on sets of (output definition, content)", "algo": algo, "edit": kind,
+                               "request1": nreqs[4 * i + 2 * k], "request2": nreqs[4 * i + 2 * k + 1], "hash": x["hash"]},
+                              signature="nocache-outhash-collision")
+    ctx.coverage["digest_literal_vectors"] = len(reqs)
+    ctx.coverage["digest_large_file_pairs"] = len(pairs) * 2
+    ctx.coverage["nocache_outhash_pairs"] = len(meta) * 2
+    ctx.coverage["nocache_outhash_pairs_different"] = ndiff * 2
+    ctx.coverage["digest_disagreements"] = len(dis)
+    ctx.coverage["evaluations"] += len(reqs) + len(breqs) + len(nreqs)
+    ctx.coverage["traces_validated_against_impl"] += len(tr) + len(ntr)
+    if dis and not ctx.violations:
+        r, x, y = dis[0]
+        ctx.violation("a digest function of the real code differs from the model (HashFile/HashBytes/HashString = hash of the content; "
+                      "GetNoCacheOutputHash = hash of the sorted, comma-joined '<len>:<definition>:<digest>' elements)",
+                      {"kind": "correspondence", "correspondence": "hashing.HashFile/HashBytes/HashString, output.GetNoCacheOutputHash vs GrogModel.Hash.hashContent / outHashNoCache",
+                       "request": r, "impl": x, "model": y, "n_disagreements": len(dis)}, found_input=False)
 
 
 def search_hasher_break(ctx, env, bad_lengths):
